@@ -220,12 +220,15 @@ pub fn cached(seed: u64, stream: u64, mspec: &str) -> &'static Vec<Sample> {
     static C: OnceLock<Mutex<BTreeMap<(u64, u64, String), &'static Vec<Sample>>>> = OnceLock::new();
     let m = C.get_or_init(|| Mutex::new(BTreeMap::new()));
     let key = (seed, stream, mspec.to_string());
-    if let Some(p) = m.lock().unwrap().get(&key) {
+    // computed while holding the lock: the same honest session must never be executed twice in one
+    // process (a library that keeps process-wide state would see its values presented twice)
+    let mut g = m.lock().unwrap_or_else(|e| e.into_inner());
+    if let Some(p) = g.get(&key) {
         return p;
     }
     let p: &'static Vec<Sample> = Box::leak(Box::new(all(seed, stream, mspec)));
-    let mut g = m.lock().unwrap();
-    *g.entry(key).or_insert(p)
+    g.insert(key, p);
+    p
 }
 
 /// An honest start message with everything a verifier needs: (amount, nonce, proof, context) —
@@ -279,10 +282,11 @@ pub fn pay_sample(k: u64, mspec: &str) -> &'static PaySample {
     static C: OnceLock<Mutex<BTreeMap<(u64, String), &'static PaySample>>> = OnceLock::new();
     let m = C.get_or_init(|| Mutex::new(BTreeMap::new()));
     let key = (k, mspec.to_string());
-    if let Some(p) = m.lock().unwrap().get(&key) {
+    let mut g = m.lock().unwrap_or_else(|e| e.into_inner());
+    if let Some(p) = g.get(&key) {
         return p;
     }
     let p: &'static PaySample = Box::leak(Box::new(make_pay_sample(k, mspec)));
-    let mut g = m.lock().unwrap();
-    *g.entry(key).or_insert(p)
+    g.insert(key, p);
+    p
 }
